@@ -197,7 +197,7 @@ func (o TOpts) zopts() []z.TestOption {
 const LeakKey = "verif_leak"
 
 // CtxUniverse: every context key any execution of the harness ever passes, plus the planted one
-var CtxUniverse = []string{"k1", "k2", "lang", "locale", "a", "b", LeakKey}
+var CtxUniverse = []string{"k1", "k2", "k3", "lang", "locale", "a", "b", LeakKey}
 
 func noteCtx(ctx z.Ctx, rec *Recorder) {
 	for _, k := range CtxUniverse {
